@@ -5,7 +5,7 @@ import ast
 import builtins
 import os
 
-TRANSFORMS = ["unparse_roundtrip", "rename_locals", "swap_if_else", "insert_pass"]
+TRANSFORMS = ["unparse_roundtrip", "rename_locals", "swap_if_else", "insert_pass", "return_temp", "elif_to_nested", "insert_logging"]
 
 
 def transforms_for(prop: str):
@@ -43,6 +43,12 @@ def apply(name: str, root: str, prop: str) -> bool:
             _SwapIf().visit(tree)
         elif name == "insert_pass":
             _InsertPass().visit(tree)
+        elif name == "return_temp":
+            _ReturnTemp().visit(tree)
+        elif name == "elif_to_nested":
+            _ElifNested().visit(tree)
+        elif name == "insert_logging":
+            _InsertLogging().visit(tree)
         else:
             return False
         ast.fix_missing_locations(tree)
@@ -138,3 +144,77 @@ class _InsertPass(ast.NodeTransformer):
         self.generic_visit(node)
         node.body.append(ast.Pass()) if not isinstance(node.body[-1], (ast.Return, ast.Raise, ast.Continue, ast.Break)) else None
         return node
+
+
+
+# ----------------------------------------------------------------------------- `return <call>` -> `tmp = <call>; return tmp`
+class _ReturnTemp(ast.NodeTransformer):
+    """a returned call / await / subscript expression is first bound to a fresh local"""
+
+    def __init__(self):
+        self.n = 0
+
+    def _block(self, stmts):
+        out = []
+        for s in stmts:
+            if isinstance(s, ast.Return) and s.value is not None and isinstance(s.value, (ast.Call, ast.Await, ast.Subscript, ast.BinOp, ast.Attribute)) \
+                    and not any(isinstance(x, (ast.Yield, ast.YieldFrom)) for x in ast.walk(s.value)):
+                self.n += 1
+                nm = f"_rt{self.n}"
+                out.append(ast.Assign(targets=[ast.Name(id=nm, ctx=ast.Store())], value=s.value))
+                out.append(ast.Return(value=ast.Name(id=nm, ctx=ast.Load())))
+            else:
+                out.append(s)
+        return out
+
+    def generic_visit(self, node):
+        super().generic_visit(node)
+        for fld in ("body", "orelse", "finalbody"):
+            v = getattr(node, fld, None)
+            if isinstance(v, list) and v and isinstance(v[0], ast.stmt):
+                setattr(node, fld, self._block(v))
+        return node
+
+
+# ----------------------------------------------------------------------------- `elif c:` -> `else: if c:` is what the parser produces anyway;
+# the visible variant is the opposite direction of flattening: `if a: X else: (if b: Y else: Z)` -> `if a: X` followed by a guarded block when X always leaves
+class _ElifNested(ast.NodeTransformer):
+    """`if a: <leaves> else: B` -> `if a: <leaves>` ; B   (early-exit style)"""
+
+    def _leaves(self, stmts):
+        return bool(stmts) and isinstance(stmts[-1], (ast.Return, ast.Raise, ast.Continue, ast.Break))
+
+    def _block(self, stmts):
+        out = []
+        for i, s in enumerate(stmts):
+            if isinstance(s, ast.If) and s.orelse and self._leaves(s.body) and i == len(stmts) - 1:
+                rest = s.orelse
+                s.orelse = []
+                out.append(s)
+                out.extend(rest)
+            else:
+                out.append(s)
+        return out
+
+    def generic_visit(self, node):
+        super().generic_visit(node)
+        for fld in ("body", "orelse", "finalbody"):
+            v = getattr(node, fld, None)
+            if isinstance(v, list) and v and isinstance(v[0], ast.stmt):
+                setattr(node, fld, self._block(v))
+        return node
+
+
+# ----------------------------------------------------------------------------- a harmless module-level call at the top of every function body
+class _InsertLogging(ast.NodeTransformer):
+    def _do(self, node):
+        self.generic_visit(node)
+        i = 0
+        if node.body and isinstance(node.body[0], ast.Expr) and isinstance(node.body[0].value, ast.Constant) and isinstance(node.body[0].value.value, str):
+            i = 1
+        call = ast.Expr(ast.Call(func=ast.Name(id="id", ctx=ast.Load()), args=[ast.Constant(0)], keywords=[]))
+        node.body.insert(i, call)
+        return node
+
+    visit_FunctionDef = _do
+    visit_AsyncFunctionDef = _do
